@@ -3,7 +3,8 @@
    proofs are in Proofs/StoreProofs.v. *)
 From Coq Require Import List NArith ZArith Bool Sorted.
 From Abasic Require Import Model.Bytes Model.Num Model.Token Model.Data Model.Lexer Gen.Tables
-     Model.State Model.Eval Model.Interp Proofs.Monad Proofs.Frames Proofs.StoreProofs Proofs.StoreExt Proofs.StoreBehaviour.
+     Model.State Model.Eval Model.Interp Proofs.Monad Proofs.Frames Proofs.StoreProofs Proofs.StoreExt Proofs.StoreBehaviour
+     Model.RustColl Gen.ProgramLinesRs Proofs.StoreTie.
 Import ListNotations.
 Open Scope N_scope.
 
@@ -107,6 +108,34 @@ Example C04_example :
   st_keys s = [10] /\ abs s 10 = Some [TSymbol (bs "C")] /\ abs s 20 = None.
 Proof. vm_compute. repeat split. Qed.
 
+(* THE TIE TO program_lines.rs BY TRANSLATION.  Gen/ProgramLinesRs.v holds the
+   five methods of ProgramLines the interpreter uses, translated call by call
+   from the source text on this run (which field, which collection call, in
+   which branch; Model/RustColl.v gives the calls their meaning on an
+   ascending key list and an association list).  They are the model's store
+   operations, for every state, line number and token list — so the theorems
+   above are re-checked against the calls the code makes now. *)
+Theorem C04_code_first : forall s, rs_pl_first (st_toks s) (st_keys s) = store_first s.
+Proof. exact rs_pl_first_is_model. Qed.
+Theorem C04_code_after : forall s n, rs_pl_after (st_toks s) (st_keys s) n = store_after n s.
+Proof. exact rs_pl_after_is_model. Qed.
+Theorem C04_code_has : forall s n, rs_pl_has (st_toks s) (st_keys s) n = store_has n s.
+Proof. exact rs_pl_has_is_model. Qed.
+Theorem C04_code_get : forall s n, rs_pl_get (st_toks s) (st_keys s) n = toks_get n (st_toks s).
+Proof. exact rs_pl_get_is_model. Qed.
+Theorem C04_code_set : forall s n ts,
+  store_set n ts s = set_store (fst (rs_pl_set (st_toks s) (st_keys s) n ts)) (snd (rs_pl_set (st_toks s) (st_keys s) n ts)) s.
+Proof. exact rs_pl_set_is_model. Qed.
+
+(* non-vacuity, on the translated code: enter 30, 10, 20, replace 10, delete 20; successor of 10 and of 2^64-1 *)
+Example C04_code_example :
+  let put n ts (p : list (N * list token) * list N) := rs_pl_set (fst p) (snd p) n ts in
+  let p := put 20 [] (put 10 [TEnd] (put 20 [TStop] (put 10 [TStop] (put 30 [TEnd] ([], []))))) in
+  snd p = [10; 30] /\ rs_pl_get (fst p) (snd p) 10 = Some [TEnd] /\ rs_pl_has (fst p) (snd p) 20 = false /\
+  rs_pl_first (fst p) (snd p) = Some 10 /\ rs_pl_after (fst p) (snd p) 10 = Some 30 /\
+  rs_pl_after (fst p) (snd p) 18446744073709551615 = None.
+Proof. vm_compute. repeat split. Qed.
+
 Print Assumptions C04_refines.
 Print Assumptions C04_step.
 Print Assumptions C04_agree.
@@ -115,3 +144,8 @@ Print Assumptions C04_first.
 Print Assumptions C04_run_order.
 Print Assumptions C04_number.
 Print Assumptions C04_entry_order_irrelevant.
+Print Assumptions C04_code_first.
+Print Assumptions C04_code_after.
+Print Assumptions C04_code_has.
+Print Assumptions C04_code_get.
+Print Assumptions C04_code_set.
